@@ -1,5 +1,5 @@
 (* C02 — field resolution across layers: define, inherit, drop - never a stale field. *)
-From Connectome Require Import Values NameSet AntiSetGen MiscGen NameLevel NameFacts.
+From Connectome Require Import Values NameSet AntiSetGen GraphGen NameLevel NameFacts.
 From Connectome Require Bag.
 Local Open Scope list_scope.
 
